@@ -168,12 +168,12 @@ const (
 type Node struct {
 	Kind  string            `json:"kind"`
 	Scope Scope             `json:"scope,omitempty"`
-	Agg   bool              `json:"agg,omitempty"`  // fifo.Group aggregateErrors
-	Kids  []*Node           `json:"kids,omitempty"` // group children, in listed order
-	Prio  []int64           `json:"prio,omitempty"` // priority.Group priorities, parallel to Kids
-	Mod   *Node             `json:"mod,omitempty"`  // filter "modifier"
-	Else  *Node             `json:"else,omitempty"` // filter "else"
-	A     map[string]string `json:"a,omitempty"`    // parameters (name, value, regex, port, id, ...)
+	Agg   bool              `json:"agg,omitempty"`    // fifo.Group aggregateErrors
+	Kids  []*Node           `json:"kids,omitempty"`   // group children, in listed order
+	Prio  []int64           `json:"prio,omitempty"`   // priority.Group priorities, parallel to Kids
+	Mod   *Node             `json:"mod,omitempty"`    // filter "modifier"
+	Else  *Node             `json:"else,omitempty"`   // filter "else"
+	A     map[string]string `json:"a,omitempty"`      // parameters (name, value, regex, port, id, ...)
 	ErrOn []Kind            `json:"err_on,omitempty"` // probe: message kinds on which it returns an error
 	Bad   string            `json:"bad,omitempty"`    // defect carried in an invalid configuration
 	BadV  string            `json:"bad_v,omitempty"`  // detail of the defect (bogus scope string, ...)
